@@ -1,9 +1,13 @@
 """C02 — Calling a pipeline equals composing its functions along the DAG.
 
-Correspondence: `pipeline(o, **kw)`, `Pipeline.run(full_output=…)`, `Pipeline.func(o)(**kw)`, `arg_combinations`,
-`root_args`, `func_dependencies` on generated DAGs (tuple outputs, shared parameters, defaults, bound values, renames,
-nullary functions) under several listing orders, against `PF.Pipe` (lean/PfModel/Model/Pipeline.lean).  User functions
-build terms, so the value *is* the composition that was evaluated.
+Correspondence: every public way of calling — `pipeline(o, **kw)`, `pipeline()` (unique leaf), `Pipeline.run(full_output=…)`,
+`Pipeline.func(o)(**kw)`, `.call_full_output`, `.call_with_dict`, `.call_with_root_args(*pos, **kw)`, `pipeline[o]` and
+`pipeline[o](**direct)` / `pipeline[o](*pos)` — plus `arg_combinations`, `root_args`, `func_dependencies` on generated DAGs (tuple
+outputs, shared parameters, defaults, bound values, renames, nullary functions) under several listing orders, against `PF.Pipe`
+(lean/PfModel/Model/Pipeline.lean, PipelineEntries.lean).  User functions build terms, so the value *is* the composition that was
+evaluated.  A second stream wraps the same descriptions in many callable styles (props_extra/c02_sig.py: class, callable instance,
+partial, method, lambda, keyword-only, custom output_picker, None / falsy / mutable defaults), ties what `PipeFunc` reports from
+`inspect.signature` to the description, and runs them through the same comparison, also with `profile=True`, `debug=True` and a cache.
 """
 from __future__ import annotations
 
@@ -14,41 +18,82 @@ from pfimport import exc_enum
 
 import pipegen
 import terms
+from props_extra import c02_sig
 
 PID = "C02"
-PROPS = ["PfModel.Props.C02", "PfModel.Props.C02Needed"]
+PROPS = ["PfModel.Props.C02", "PfModel.Props.C02Needed", "PfModel.Props.C02Entries"]
 DRIVER = "C02"
 RULE = ("random DAGs of 1-6 term-building functions (nullary, tuple outputs, shared parameters, defaults, bound values incl. over an "
         "upstream output, renames); for every output every listed argument combination (all when <= 16, else 16 sampled) plus "
-        "surplus-keyword and missing-keyword variants, run/full_output/func(o) entry points, 2 extra listing orders; a case is "
-        "non-trivial when the requested output's producer has at least one upstream function; distinct by (pipeline, output, keywords, entry)")
-ASSUMPTIONS = ["inspect.signature is outside the model: the model is fed the parameter lists of the generated functions",
-               "networkx graph construction is mirrored by the model's `preds`; only sets of combinations are compared",
-               "values are uninterpreted terms (a function is identified by the term it builds)"]
+        "surplus-keyword and missing-keyword variants, through the entry points call/run/full_output/func(o)/call_full_output/"
+        "call_with_dict/call_with_root_args (valid and ill-bound positional splits)/pipeline() without a name/pipeline[o](**direct)/"
+        "pipeline[o](*positional), 2 extra listing orders; a second stream wraps every function in a random callable style (def, lambda, "
+        "class, callable instance, method, classmethod, functools.partial x2, keyword-only, dict + output_picker) with None/falsy/mutable "
+        "defaults and falsy keyword values, ties PipeFunc.parameters/defaults/bound/renames/output_name to the description and runs the "
+        "same comparison on 4 builds (plain, PipeFunc(defaults=)+profile, debug, cache twice); a case is non-trivial when the requested "
+        "output's producer has at least one upstream function; distinct by (pipeline, output, keywords, entry)")
+ASSUMPTIONS = ["inspect.signature is outside the model: the model is fed the parameter lists of the generated functions; the signature "
+               "tie checks PipeFunc.parameters/defaults/bound/renames/output_name against the description for ten callable styles",
+               "networkx graph construction is mirrored by the model's `preds`/`leafFuncs`; only sets of combinations are compared",
+               "values are uninterpreted terms (a function is identified by the term it builds)",
+               "positional-only parameters, *args/**kwargs and callables without __name__ are outside the property: probed and counted as observations",
+               "with a cache only values (second identical call) are compared; lazy=True is not exercised"]
+
+enc = c02_sig.enc
+FALSY = [None, 0, {"s": ""}, {"s": "$False"}]
+PIPELINE_ENTRIES = ("call", "run", "full", "func", "func_full", "func_dict", "callroot", "noout")
+MODEL_ENTRY = {"call": "run", "run": "run", "full": "run", "func": "func", "func_full": "func", "func_dict": "func",
+               "callroot": "callroot", "noout": "callleaf", "pfcall": "pfcall", "pfpos": "pfcall", "getitem": "getitem"}
+OK_KINDS = ("listed", "tuple-request", "func-each-output", "root-pos", "pf-direct")      # must be accepted
+
+
+def canon(j):
+    return c02_sig.norm(terms.canon(j))
 
 
 def kwval(k):
     return {"s": f"kw:{k}"}
 
 
-def call_impl(p, log, entry, out, kw):
+def _key(k):
+    return k if isinstance(k, str) else ",".join(k)
+
+
+def _full(d):
+    return sorted([[_key(k), enc(v)] for k, v in d.items()], key=lambda kv: kv[0])
+
+
+def call_impl(p, log, entry, out, kw, pos=None):
     """Returns the canonical observation of one call of the real pipeline."""
     log.clear()
     pykw = {k: terms.dec(v) for k, v in kw}
-    o = out if isinstance(out, str) else tuple(out)
+    pypos = [terms.dec(v) for v in (pos or [])]
+    o = out if isinstance(out, str) or out is None else tuple(out)
     try:
         if entry == "call":
-            v = pipegen.quiet(p, o, **pykw)
-            obs = {"value": terms.enc(v)}
+            obs = {"value": enc(pipegen.quiet(p, o, **pykw))}
+        elif entry == "noout":
+            obs = {"value": enc(pipegen.quiet(p, **pykw))}
         elif entry == "run":
-            v = pipegen.quiet(p.run, o, kwargs=pykw)
-            obs = {"value": terms.enc(v)}
+            obs = {"value": enc(pipegen.quiet(p.run, o, kwargs=pykw))}
         elif entry == "full":
             d = pipegen.quiet(p.run, o, full_output=True, kwargs=pykw)
-            obs = {"value": terms.enc(d[o]), "full": sorted([[k, terms.enc(v)] for k, v in d.items()], key=lambda kv: kv[0])}
+            obs = {"value": enc(d[o]), "full": _full(d)}
         elif entry == "func":
-            v = pipegen.quiet(p.func(o), **pykw)
-            obs = {"value": terms.enc(v)}
+            obs = {"value": enc(pipegen.quiet(p.func(o), **pykw))}
+        elif entry == "func_full":
+            d = pipegen.quiet(p.func(o).call_full_output, **pykw)
+            obs = {"value": enc(d[o]), "full": _full(d)}
+        elif entry == "func_dict":
+            obs = {"value": enc(pipegen.quiet(p.func(o).call_with_dict, pykw))}
+        elif entry == "callroot":
+            obs = {"value": enc(pipegen.quiet(p.func(o).call_with_root_args, *pypos, **pykw))}
+        elif entry in ("pfcall", "pfpos"):
+            obs = {"value": enc(pipegen.quiet(p[o], *pypos, **pykw))}
+        elif entry == "getitem":
+            pf = p[o]
+            on = pf.output_name
+            obs = {"name": pf.__name__, "outputs": [on] if isinstance(on, str) else list(on)}
         else:
             raise AssertionError(entry)
     except Exception as e:  # noqa: BLE001
@@ -57,26 +102,63 @@ def call_impl(p, log, entry, out, kw):
     return obs
 
 
-def model_obs(r, entry):
+def _producer(desc, out):
+    if out is None:
+        return None
+    return next((f for f in desc["funcs"] if (out in f["outputs"] if isinstance(out, str) else f["outputs"] == list(out))), None)
+
+
+def model_obs(r, entry, out, desc):
+    """canonical form of the model's answer for one entry point"""
     if "err" in r:
         return {"err": r["err"]}
-    o = {"value": terms.canon(r["value"])}
-    if entry == "full":
-        o["full"] = sorted([[k, terms.canon(v)] for k, v in r["full"]], key=lambda kv: kv[0])
-    o["calls"] = r["calls"]
+    if entry == "getitem":
+        return {"name": r["name"], "outputs": r["outputs"], "calls": []}
+    whole = None                                 # the output names when the answer is a function's whole (tuple) output
+    if entry == "noout":
+        whole = r["leaf"][0] if len(r["leaf"][0]) > 1 else None
+    elif entry in ("pfcall", "pfpos"):
+        f = _producer(desc, out)
+        whole = f["outputs"] if f is not None and len(f["outputs"]) > 1 else None
+    elif not isinstance(out, str):
+        whole = list(out)
+    value = canon(r["value"])
+    parts = value["arr"][1] if whole and isinstance(value, dict) and "arr" in value else None
+    if whole and parts is not None and (_producer(desc, whole) or {}).get("style") == "dictpicker":
+        value = {"dict": sorted([[n, e] for n, e in zip(whole, parts)], key=lambda kv: kv[0])}   # the function returns a dict
+    o = {"value": value}
+    if entry in ("full", "func_full"):
+        full = {}
+        for k, v in r["full"]:                                # an association list: the first entry of a name is the live one
+            full.setdefault(k, canon(v))
+        if whole:
+            full.setdefault(_key(whole), value)               # `all_results[func.output_name] = r` under the tuple key
+            if entry == "func_full" and parts is not None:     # call_full_output adds the individual names
+                for n, e in zip(whole, parts):
+                    full.setdefault(n, e)
+        o["full"] = sorted([[k, v] for k, v in full.items()], key=lambda kv: kv[0])
+    o["calls"] = r["calls"] if "calls" in r else [r["name"]]
     return o
 
 
-def order_ok(desc, calls):
-    """Every function after the functions producing the (non-supplied) values it consumed: checked by the model's log
-    being a valid order too; here: no duplicates."""
-    return len(calls) == len(set(calls))
+def _val(rng, k, falsy_kw):
+    return rng.choice(falsy_kw) if falsy_kw and rng.random() < 0.2 else kwval(k)
 
 
-def cases_for(ctx, desc, rng, max_combos=16):
-    """(entry, out, kw, kind) tuples for one pipeline, using the REAL pipeline's arg_combinations."""
-    p, log = pipegen.build(desc)
+def cases_for(ctx, desc, rng, p, max_combos=16, falsy_kw=None):
+    """case dicts {entry, out, kw, kind[, pos]} for one pipeline, using the REAL pipeline's arg_combinations / root_args."""
     cases = []
+    outs_all = pipegen.all_outputs(desc)
+
+    def add(entry, out, kw, kind, pos=None):
+        c = {"entry": entry, "out": out, "kw": kw, "kind": kind}
+        if pos is not None:
+            c["pos"] = pos
+        cases.append(c)
+
+    def kws(names):
+        return [[k, _val(rng, k, falsy_kw)] for k in names]
+
     for f in desc["funcs"]:
         outs = list(f["outputs"]) + ([list(f["outputs"])] if len(f["outputs"]) > 1 and rng.random() < 0.3 else [])
         for o in outs:
@@ -87,7 +169,9 @@ def cases_for(ctx, desc, rng, max_combos=16):
                 except Exception:  # noqa: BLE001
                     pass
                 if roots is not None:
-                    cases.append(("call", o, [[k, kwval(k)] for k in roots], "tuple-request"))
+                    add(rng.choice(["call", "call", "full", "func", "func_full", "func_dict"]), o, kws(roots), "tuple-request")
+                    k = rng.randint(0, len(roots))
+                    add("callroot", o, kws(roots[k:]), "root-pos", pos=[_val(rng, n, falsy_kw) for n in roots[:k]])
                 continue
             try:
                 combos = sorted(p.arg_combinations(o))
@@ -97,56 +181,162 @@ def cases_for(ctx, desc, rng, max_combos=16):
             if len(combos) > max_combos:
                 combos = rng.sample(combos, max_combos)
             for combo in combos:
-                kw = [[k, kwval(k)] for k in combo]
-                entry = rng.choice(["call", "call", "run", "full", "func"])
-                if entry == "func" and any(k in pipegen.all_outputs(desc) for k in combo):
-                    entry = "call"                      # Pipeline.func(o) takes root arguments only
-                cases.append((entry, o, kw, "listed"))
-            if combos and len(f["outputs"]) > 1:
+                entry = rng.choice(["call", "call", "run", "full", "func", "func_full", "func_dict"])
+                if entry == "func" and any(k in outs_all for k in combo):
+                    entry = "call"                      # kept from round 1: Pipeline.func(o) with root arguments only
+                add(entry, o, kws(combo), "listed")
+            roots = next((c for c in combos if not any(k in outs_all for k in c)), None)
+            if combos and len(f["outputs"]) > 1 and roots is not None:
                 # Pipeline.func(o) for every output of a tuple-output function, in sequence on the same pipeline object
-                roots = next((c for c in combos if not any(k in pipegen.all_outputs(desc) for k in c)), None)
-                if roots is not None:
-                    cases.append(("func", o, [[k, kwval(k)] for k in roots], "func-each-output"))
+                add("func", o, kws(roots), "func-each-output")
+            try:
+                roots = list(p.root_args(o))
+            except Exception:  # noqa: BLE001
+                roots = None
+            if roots is not None:
+                # call_with_root_args: a valid split between positional and keyword, and one ill-bound variant
+                k = rng.randint(0, len(roots))
+                add("callroot", o, kws(roots[k:]), "root-pos", pos=[_val(rng, n, falsy_kw) for n in roots[:k]])
+                bad = rng.choice(["toomany", "dup", "missing", "unexpected"])
+                allpos = [kwval(n) for n in roots]
+                if bad == "toomany":
+                    add("callroot", o, [], "root-bad:toomany", pos=allpos + [kwval("extra")])
+                elif bad == "dup" and roots:
+                    add("callroot", o, kws(roots[:1]), "root-bad:dup", pos=allpos)
+                elif bad == "missing" and roots:
+                    drop = rng.choice(roots)       # also one that has a pipeline default: the signature has no defaults
+                    k2 = min(k, roots.index(drop))
+                    add("callroot", o, kws([n for n in roots[k2:] if n != drop]), "root-bad:missing", pos=allpos[:k2])
+                elif bad == "unexpected":
+                    add("callroot", o, kws(roots[k:] + ["zz"]), "root-bad:unexpected", pos=allpos[:k])
             if combos:
                 base = list(rng.choice(combos))
-                pool = [n for n in (["r0", "r1", "r2", "zz"] + pipegen.all_outputs(desc)) if n not in base and n != o]
+                pool = [n for n in (["r0", "r1", "r2", "zz"] + outs_all) if n not in base and n != o]
                 if pool:
                     extra = rng.choice(pool)
-                    cases.append(("call", o, [[k, kwval(k)] for k in base + [extra]], "surplus"))
+                    add(rng.choice(["call", "call", "func_full", "func_dict"]), o, kws(base + [extra]), "surplus")
                 if base:
                     drop = rng.choice(base)
-                    cases.append(("call", o, [[k, kwval(k)] for k in base if k != drop], "missing"))
+                    add(rng.choice(["call", "call", "func_dict"]), o, kws([k for k in base if k != drop]), "missing")
+        # pipeline[o]: the PipeFunc itself, called directly
+        o = rng.choice(f["outputs"]) if rng.random() < 0.7 or len(f["outputs"]) == 1 else list(f["outputs"])
+        add("getitem", o, [], "getitem")
+        bound = [b[0] for b in f.get("bound", [])]
+        dflt = [d[0] for d in f.get("defaults", [])]
+        names = [q for q, _ in f["params"]]
+        direct = [q for q in names if (q in bound and rng.random() < 0.3) or (q in dflt and rng.random() < 0.5) or (q not in bound and q not in dflt)]
+        add("pfcall", o, [[q, _val(rng, q + ":direct", falsy_kw)] for q in direct], "pf-direct")
+        required = [q for q in names if q not in bound and q not in dflt]
+        if required and rng.random() < 0.3:
+            drop = rng.choice(required)
+            add("pfcall", o, [[q, kwval(q + ":direct")] for q in direct if q != drop], "pf-missing")
+        if rng.random() < 0.3:
+            add("pfcall", o, [[q, kwval(q + ":direct")] for q in direct + ["zz"]], "pf-extra")
+        if names and f.get("style", "def") in ("def", "lambda", "class", "instance", "method", "classmethod") and rng.random() < 0.6:
+            k = rng.randint(1, len(names))
+            rest = [q for q in names[k:] if q in direct]
+            touched = any(q in bound or q in dflt for q in names[:k])
+            add("pfpos", o, [[q, kwval(q + ":direct")] for q in rest], "pf-pos:default-or-bound" if touched else "pf-pos",
+                pos=[kwval(q + ":direct") for q in names[:k]])
+    add("getitem", "nosuch", [], "getitem-unknown")
+    # pipeline() without an output name
+    try:
+        leaves = p.leaf_nodes
+        roots = list(p.root_args(leaves[0].output_name)) if len(leaves) == 1 else []
+    except Exception as e:  # noqa: BLE001
+        ctx.count(f"leaf-exc:{exc_enum(e)}")
+        roots = []
+    add("noout", None, kws(roots), "noout")
     return cases
 
 
-def check_pipeline(ctx, desc, rng):
-    reqs, metas = [], []
-    orders = [None]
+def model_request(desc, c):
+    entry = c["entry"]
+    a = {"funcs": desc["funcs"], "kw": c["kw"]}
+    if entry != "noout":
+        a["out"] = c["out"]
+    if entry == "callroot":
+        a["pos"] = c.get("pos", [])
+    if entry == "pfpos":
+        f = _producer(desc, c["out"])
+        a["kw"] = [[q, v] for (q, _), v in zip(f["params"], c["pos"])] + c["kw"]
+    if entry == "getitem":
+        del a["kw"]
+    return {"m": MODEL_ENTRY[entry], "a": a}
+
+
+BASE_VARIANTS = [("listing-order-0", {"defaults_in_signature": True}, False),
+                 ("listing-order-1+PipeFunc-defaults", {"defaults_in_signature": False}, True),
+                 ("listing-order-2", {"defaults_in_signature": True}, True)]
+STYLED_VARIANTS = [("plain+cache_type=None+lazy=False", {"defaults_in_signature": True, "cache_type": None, "lazy": False}, False),
+                   ("permuted+PipeFunc-defaults+profile", {"defaults_in_signature": False, "profile": True}, True),
+                   ("permuted+debug", {"defaults_in_signature": True, "debug": True}, True),
+                   ("cache", {"defaults_in_signature": True, "cache": True, "cache_type": "lru"}, False)]
+
+
+def build_variants(ctx, desc, rng, styled):
     n = len(desc["funcs"])
-    for _ in range(2 if n > 1 else 0):
-        perm = list(range(n)); rng.shuffle(perm); orders.append(perm)
-    cases = cases_for(ctx, desc, rng)
-    built = [pipegen.build(desc, order=o, defaults_in_signature=(i != 1)) for i, o in enumerate(orders)]
-    for entry, out, kw, kind in cases:
-        obs = [call_impl(p, log, entry, out, kw) for p, log in built]
-        reqs.append({"m": "run", "a": {"funcs": desc["funcs"], "kw": kw, "out": out}})
-        metas.append(("run", entry, out, kw, kind, obs))
+    built = []
+    for label, kw, permute in (STYLED_VARIANTS if styled else BASE_VARIANTS):
+        order = None
+        if permute:
+            if n <= 1:
+                if not styled:
+                    continue
+            else:
+                order = list(range(n)); rng.shuffle(order)
+        kw = dict(kw)
+        if kw.get("cache_type") == "lru" and styled:
+            kw["cache_type"] = rng.choice(["lru", "simple", "hybrid"])
+            if kw["cache_type"] != "simple":
+                # a shared cache starts a multiprocessing manager process per pipeline (slow): one in ten
+                kw["cache_kwargs"] = {"shared": rng.random() < 0.1}
+            ctx.count(f"cache:{kw['cache_type']}{':shared' if kw.get('cache_kwargs', {}).get('shared') else ''}")
+        if styled:
+            p, log, by_name = c02_sig.build_styled(desc, order=order, **kw)
+            c02_sig.tie(ctx, desc, by_name, label)
+        else:
+            p, log = pipegen.build(desc, order=order, **kw)
+        built.append((label, p, log))
+    return built
+
+
+def check_pipeline(ctx, desc, rng, styled=False):
+    reqs, metas = [], []
+    built = build_variants(ctx, desc, rng, styled)
+    # 0 == False: one pipeline (its caches are keyed by the keyword values) uses only one of the two, see c02_sig.stylise
+    falsy = [v for v in FALSY if v != (0 if desc.get("zero") == "false" else {"s": "$False"})] if styled else None
+    cases = cases_for(ctx, desc, rng, built[0][1], falsy_kw=falsy)
+    for c in cases:
+        obs = []
+        for label, p, log in built:
+            ob = call_impl(p, log, c["entry"], c["out"], c["kw"], c.get("pos"))
+            if label == "cache":
+                # the second identical call must return the same value (the log may be shorter: values only)
+                ob2 = call_impl(p, log, c["entry"], c["out"], c["kw"], c.get("pos"))
+                ob = {"first": ob, "second": ob2}
+            obs.append((label, ob))
+        reqs.append(model_request(desc, c))
+        metas.append(("case", c, obs))
+    p = built[0][1]
     for o in pipegen.all_outputs(desc):
-        p = built[0][0]
         try:
             impl = {"combos": sorted(sorted(c) for c in p.arg_combinations(o)), "root_args": sorted(p.root_args(o)),
                     "deps": sorted(sorted([d] if isinstance(d, str) else list(d)) for d in p.func_dependencies(o))}
         except Exception as e:  # noqa: BLE001
             impl = {"err": exc_enum(e)}
         reqs.append({"m": "argcombos", "a": {"funcs": desc["funcs"], "out": o}})
-        metas.append(("argcombos", None, o, None, "argcombos", impl))
+        metas.append(("argcombos", {"entry": None, "out": o, "kw": None, "kind": "argcombos"}, impl))
     return reqs, metas
 
 
-def judge(ctx, desc, req, meta, resp):
-    kind0, entry, out, kw, kind, impl = meta
+def judge(ctx, desc, req, meta, resp, styled=False):
+    kind0, c, impl = meta
     r = resp["r"]
-    case = {"funcs": desc["funcs"], "entry": entry, "out": out, "kw": kw, "kind": kind}
+    entry, out, kw, kind = c["entry"], c["out"], c["kw"], c["kind"]
+    case = {"funcs": desc["funcs"], **c}
+    if styled:
+        case["styled"] = True
     if kind0 == "argcombos":
         model = {"combos": sorted(sorted(c) for c in (r["combos"] or [])), "root_args": sorted(r["root_args"] or []),
                  "deps": sorted(sorted(d) for d in (r["deps"] or []))}
@@ -156,34 +346,69 @@ def judge(ctx, desc, req, meta, resp):
             ctx.violation(case, f"arg_combinations/root_args/func_dependencies of {out} differ from the model",
                           found_input=False, item="correspondence:argcombos", impl=impl, model=model)
         return
-    model = model_obs(r, entry)
+    model = model_obs(r, entry, out, desc)
     ctx.count(f"op:{entry}:{kind}")
-    producer = next(f for f in desc["funcs"] if (out in f["outputs"] if isinstance(out, str) else f["outputs"] == out))
-    nontrivial = any(p in pipegen.all_outputs(desc) for p, _ in producer["params"])
+    if entry == "noout":
+        ctx.count("noout:unique-leaf" if "err" not in model else "noout:several-leaves")
+    pipeline_entry = entry in PIPELINE_ENTRIES
+    corr = {} if pipeline_entry else {"found_input": False, "item": f"correspondence:{entry}"}   # pipeline[o] is not named by the property
+    producer = _producer(desc, out if entry != "noout" else (r["leaf"][0][0] if "leaf" in r else None))
+    nontrivial = producer is not None and any(q in pipegen.all_outputs(desc) for q, _ in producer["params"])
     ctx.record(case, nontrivial)
-    for i, ob in enumerate(impl):
+    if kind == "pf-pos:default-or-bound":
+        # PipeFunc.__call__ merges `defaults | kwargs | bound` into the keywords before `self.func(*args, **kwargs)`: a positionally
+        # passed parameter that has a default or a bound value arrives twice.  Not a C02 clause: an observation.
+        for label, ob in impl:
+            ob = ob["second"] if "second" in ob else ob
+            ctx.count(f"observation:pipefunc-positional-arg-for-defaulted-or-bound-parameter:{ob.get('err', 'accepted')}")
+        return
+    for i, (label, ob) in enumerate(impl):
+        values_only = "second" in ob
+        if values_only:
+            first, ob = ob["first"], ob["second"]
+            if kind not in OK_KINDS and kind != "noout":
+                continue                # a cache hit skips the unused-keyword check (`None in used_parameters`): accept/refuse not compared
+            if ("err" in first) != ("err" in ob) or ("err" not in ob and first["value"] != ob["value"]):
+                ctx.violation({**case, "variant": label}, "the second identical call of a cached pipeline does not return the value of the first",
+                              impl={"first": first, "second": ob}, model=model, **corr)
+                continue
         ob_c = dict(ob)
         mod_c = dict(model)
+        vcase = case if i == 0 else {**case, "variant": label}
         # the call log is compared as a multiset plus the model's order validity; errors only as accept/reject
         if "err" in ob_c or "err" in mod_c:
-            if kind in ("listed", "tuple-request", "func-each-output") and "err" in ob_c:
-                ctx.violation(case, f"argument combination listed by arg_combinations is rejected ({ob_c['err']})", impl=ob_c, model=mod_c)
+            if kind in OK_KINDS and "err" in ob_c and pipeline_entry:
+                ctx.violation(vcase, f"argument combination listed by arg_combinations is rejected ({ob_c['err']}) [{label}]", impl=ob_c, model=mod_c)
             elif ("err" in ob_c) != ("err" in mod_c):
-                what = (f"listed argument combination rejected ({ob_c.get('err')})" if kind == "listed" and "err" in ob_c else
-                        f"request {'rejected' if 'err' in ob_c else 'accepted'} by the implementation but not by the specification ({kind})")
-                ctx.violation(case, what, impl=ob_c, model=mod_c)
+                what = (f"request {'rejected' if 'err' in ob_c else 'accepted'} by the implementation ({ob_c.get('err', 'ok')}) but not by the "
+                        f"specification ({mod_c.get('err', 'ok')}) ({kind}, {entry}) [{label}]")
+                ctx.violation(vcase, what, impl=ob_c, model=mod_c, **corr)
             elif kind == "surplus" and ob_c["err"] != "UnusedParametersError" and mod_c["err"] == "UnusedParametersError":
-                ctx.violation(case, "surplus keyword rejected with a different error class", found_input=False,
+                ctx.violation(vcase, "surplus keyword rejected with a different error class", found_input=False,
+                              item="correspondence:error-class", impl=ob_c, model=mod_c)
+            elif (kind.startswith("root-bad") or kind in ("getitem-unknown", "pf-extra", "noout")) and ob_c["err"] != mod_c["err"]:
+                ctx.violation(vcase, f"{entry} ({kind}) refused with {ob_c['err']} instead of {mod_c['err']}", found_input=False,
                               item="correspondence:error-class", impl=ob_c, model=mod_c)
             ctx.count(f"err:{kind}")
             continue
+        if entry == "getitem":
+            lam = (_producer(desc, out) or {}).get("style") == "lambda"          # a lambda's __name__ is "<lambda>"
+            if ob_c["outputs"] != mod_c["outputs"] or (not lam and ob_c["name"].split(".")[-1] != mod_c["name"]):
+                ctx.violation(vcase, f"pipeline[{out!r}] is not the function producing it", impl=ob_c, model=mod_c, **corr)
+            continue
         if ob_c["value"] != mod_c["value"]:
-            ctx.violation(case, f"value differs from the composition along the DAG (listing order #{i})", impl=ob_c, model=mod_c)
+            ctx.violation(vcase, f"value differs from the composition along the DAG ({entry}) [{label}]", impl=ob_c, model=mod_c, **corr)
+        elif values_only:
+            ctx.count("cache:second-call-value-agrees")
         elif sorted(ob_c["calls"]) != sorted(mod_c["calls"]):
-            ctx.violation(case, f"functions executed {sorted(ob_c['calls'])} instead of exactly the needed ones {sorted(mod_c['calls'])}",
-                          impl=ob_c, model=mod_c)
+            ctx.violation(vcase, f"functions executed {sorted(ob_c['calls'])} instead of exactly the needed ones {sorted(mod_c['calls'])} [{label}]",
+                          impl=ob_c, model=mod_c, **corr)
+        elif "full" in mod_c and ob_c.get("full") == mod_c["full"] and any(dict(map(tuple, [[k, str(v)] for k, v in ob_c["full"]])).get(k) != str(canon(v)) for k, v in kw):
+            # model and code agree; noted for the reader: a supplied output of a tuple producer that still runs (for a sibling output) is
+            # overwritten in `all_results` by the recomputed value, although the consumers received the supplied one
+            ctx.count("observation:full_output-shows-recomputed-value-for-supplied-sibling-output")
         elif "full" in mod_c and ob_c.get("full") != mod_c["full"]:
-            ctx.violation(case, "full_output is not the memo of the same evaluation", impl=ob_c, model=mod_c)
+            ctx.violation(vcase, f"full_output is not the memo of the same evaluation ({entry}) [{label}]", impl=ob_c, model=mod_c)
         else:
             # dependencies first: position of each function after the producers of the values it consumed
             pos = {c: k for k, c in enumerate(ob_c["calls"])}
@@ -193,8 +418,8 @@ def judge(ctx, desc, req, meta, resp):
                         g = next((g for g in desc["funcs"] if pn in g["outputs"]), None)
                         if g is not None and g["name"] in pos and pos[g["name"]] > pos[f["name"]] and pn not in [k for k, _ in kw] \
                                 and pn not in [b[0] for b in f.get("bound", [])]:
-                            ctx.violation(case, f"{f['name']} executed before its dependency {g['name']}", impl=ob_c, model=mod_c)
-    if r.get("spec") is not None and "err" not in model and terms.canon(r["spec"]) != model["value"]:
+                            ctx.violation(vcase, f"{f['name']} executed before its dependency {g['name']}", impl=ob_c, model=mod_c)
+    if r.get("spec") is not None and "err" not in model and canon(r["spec"]) != model["value"]:
         raise AssertionError("model run and specification disagree (extraction bug?)")
 
 
@@ -207,32 +432,85 @@ CORPUS: list = [
                {"name": "f2", "params": [["o1a", "x"], ["o0", "y"], ["o1b", "z"]], "outputs": ["o2"], "defaults": [], "bound": [["o0", {"s": "bound:o0:f2"}]]}]},
 ]
 
+# styled corpus: every style once, with None / falsy / mutable defaults (the values short-cuts get wrong)
+STYLED_CORPUS: list = [
+    {"funcs": [{"name": "f0", "params": [["r0", "a0"], ["r1", "r1"]], "outputs": ["o0"], "defaults": [["r1", None]], "bound": [], "style": "class"},
+               {"name": "f1", "params": [["o0", "o0"], ["r2", "r2"]], "outputs": ["o1a", "o1b"], "defaults": [["r2", 0]], "bound": [], "style": "dictpicker", "rename_out": True},
+               {"name": "f2", "params": [["o1a", "x"], ["r0", "r0"]], "outputs": ["o2"], "defaults": [["r0", {"s": ""}]], "bound": [["o1a", {"s": "bound:o1a:f2"}]], "style": "instance"},
+               {"name": "f3", "params": [["o1b", "o1b"], ["o2", "y"], ["r1", "z"]], "outputs": ["o3"], "defaults": [["r1", None]], "bound": [], "style": "kwonly"}]},
+    {"funcs": [{"name": "f0", "params": [["r0", "r0"]], "outputs": ["o0"], "defaults": [["r0", {"arr": [[0], []]}]], "bound": [], "style": "partial_pos"},
+               {"name": "f1_none", "params": [["o0", "a0"], ["r1", "r1"]], "outputs": ["o1"], "defaults": [["r1", {"s": "${}"}]], "bound": [], "style": "method"},
+               {"name": "f2", "params": [["o1", "o1"], ["r2", "r2"], ["xk2", "xk2"]], "outputs": ["o2a", "o2b"],
+                "defaults": [["r2", {"s": ""}], ["xk2", {"s": "partial:xk2"}]], "bound": [], "style": "partial_kwextra"},
+               {"name": "f3", "params": [["o2a", "o2a"], ["o2b", "b"]], "outputs": ["o3"], "defaults": [], "bound": [], "style": "lambda"},
+               {"name": "f4", "params": [["o3", "o3"], ["r1", "r1"]], "outputs": ["o4"], "defaults": [["r1", {"s": "${}"}]], "bound": [], "style": "classmethod", "rename_out": True}]},
+]
+
 
 def run(ctx):
     rng = ctx.rng
+    observations = c02_sig.probe_observations(ctx)
+    ctx.count("observations-probed", len(observations))
+    streams = []
     descs = [copy.deepcopy(d) for d in CORPUS]
     for _ in range(ctx.n(150, 4000)):
         descs.append(pipegen.gen_dag(rng, max_funcs=rng.choice([2, 3, 4, 5, 6])))
+    streams.append((False, descs))
+    sdescs = [copy.deepcopy(d) for d in STYLED_CORPUS]
+    for _ in range(ctx.n(90, 1500)):
+        sdescs.append(c02_sig.stylise(rng, pipegen.gen_dag(rng, max_funcs=rng.choice([2, 3, 4, 5, 6]), p_default=0.5), ctx))
+    streams.append((True, sdescs))
     all_reqs, all_meta = [], []
-    for desc in descs:
-        try:
-            reqs, metas = check_pipeline(ctx, desc, rng)
-        except Exception as e:  # noqa: BLE001   construction refused a generated (valid) pipeline
-            ctx.count(f"construct-exc:{exc_enum(e)}")
-            ctx.violation({"funcs": desc["funcs"]}, f"valid pipeline refused at construction: {type(e).__name__}: {str(e)[:100]}")
-            continue
-        all_reqs += reqs
-        all_meta += [(desc, m) for m in metas]
+    for styled, ds in streams:
+        for desc in ds:
+            try:
+                reqs, metas = check_pipeline(ctx, desc, rng, styled=styled)
+            except Exception as e:  # noqa: BLE001   construction refused a generated (valid) pipeline
+                ctx.count(f"construct-exc:{exc_enum(e)}")
+                ctx.violation({"funcs": desc["funcs"], **({"styled": True} if styled else {})},
+                              f"valid pipeline refused at construction: {type(e).__name__}: {str(e)[:100]}")
+                continue
+            all_reqs += reqs
+            all_meta += [(desc, m, styled) for m in metas]
     outs = ctx.lean(all_reqs)
-    for req, (desc, meta), resp in zip(all_reqs, all_meta, outs):
-        judge(ctx, desc, req, meta, resp)
+    for req, (desc, meta, styled), resp in zip(all_reqs, all_meta, outs):
+        judge(ctx, desc, req, meta, resp, styled=styled)
 
 
 def replay(ctx, case):
-    p, log = pipegen.build({"funcs": case["funcs"]})
+    desc = {"funcs": case["funcs"]}
+    styled = case.get("styled")
+    if case.get("sig_tie"):
+        p, log, by_name = c02_sig.build_styled(desc)
+        f = next(f for f in case["funcs"] if f["name"] == case["sig_tie"])
+        print("PipeFunc reports:", c02_sig.reported(by_name[f["name"]]))
+        print("description:     ", c02_sig.described(f))
+        return
+    if not case.get("entry") and case.get("out") is None:
+        try:
+            (c02_sig.build_styled if styled else pipegen.build)(desc)
+            print("construction: ok")
+        except Exception as e:  # noqa: BLE001
+            print("construction:", type(e).__name__, e)
+        return
+    variants = STYLED_VARIANTS if styled else BASE_VARIANTS
+    for label, kw, permute in variants:
+        if case.get("variant") not in (None, label):
+            continue
+        order = list(reversed(range(len(case["funcs"])))) if permute else None
+        if styled:
+            p, log, _ = c02_sig.build_styled(desc, order=order, **kw)
+        else:
+            p, log = pipegen.build(desc, order=order, **kw)
+        if case.get("entry"):
+            ob = call_impl(p, log, case["entry"], case["out"], case["kw"], case.get("pos"))
+            if label == "cache":
+                ob = {"first": ob, "second": call_impl(p, log, case["entry"], case["out"], case["kw"], case.get("pos"))}
+            print(f"implementation [{label}]:", ob)
+        else:
+            print("combos:", sorted(p.arg_combinations(case["out"])))
     if case.get("entry"):
-        print("implementation:", call_impl(p, log, case["entry"], case["out"], case["kw"]))
-        print("model:", ctx.lean([{"m": "run", "a": {"funcs": case["funcs"], "kw": case["kw"], "out": case["out"]}}])[0]["r"])
+        r = ctx.lean([model_request(desc, case)])[0]["r"]
+        print("model:", model_obs(r, case["entry"], case["out"], desc), "raw:", r)
     else:
-        print("combos:", sorted(p.arg_combinations(case["out"])))
         print("model:", ctx.lean([{"m": "argcombos", "a": {"funcs": case["funcs"], "out": case["out"]}}])[0]["r"])
